@@ -1,12 +1,15 @@
 #!/bin/sh
-# usage: runchecks.sh <patch.diff> <prop> [<prop>...]   applies the patch to /repo, runs the quick checks, undoes it
+# usage: runchecks.sh <patch.diff> <prop> [<prop>...]
+# Applies the patch to a scratch worktree of /repo HEAD (so that /repo itself stays untouched and
+# other runs are not disturbed), points the quick checks at it with VERIF_REPO, removes the worktree.
+# (Equivalent to: git -C /repo apply <patch>; ./check <prop> quick; git -C /repo checkout -- .)
 set -u
 P="$1"; shift
-git -C /repo diff --quiet || { echo "/repo not clean"; exit 2; }
-git -C /repo apply "$P" || { echo "patch does not apply to /repo"; exit 2; }
+W=$(mktemp -d /tmp/mutwt.XXXXXX); rmdir "$W"
+git -C /repo worktree add -q --detach "$W" HEAD || exit 2
+git -C "$W" apply "$P" || { echo "patch does not apply"; git -C /repo worktree remove --force "$W"; exit 2; }
 for prop in "$@"; do
-  out=$(cd /verif && timeout 1500 ./bin/symgo check -prop "$prop" -tier quick -no-evidence 2>&1); rc=$?
+  out=$(cd /verif && VERIF_REPO="$W" timeout 1500 ./bin/symgo check -prop "$prop" -tier quick -no-evidence 2>&1); rc=$?
   echo "== $prop exit=$rc"; echo "$out" | grep -E "VIOLATION|counterexample|INCONCLUSIVE|KNOWN" | cut -c1-260 | head -8
 done
-git -C /repo checkout -- .
-git -C /repo status --short | head -3
+git -C /repo worktree remove --force "$W"
